@@ -263,7 +263,9 @@ class SimpleDictDocument(DictDocument):
                             raise ValidationError(orig_k[:64],
                                                  "%r Invalid array index.")
 
-                    if ninst is None:
+                    # before its first item the member holds nothing, or the
+                    # declared default, which is shared between requests.
+                    if ninst is None or ninst is nattrs.default:
                         ninst = []
                         cinst._safe_set(pkey, ninst, ncls, nattrs)
 
@@ -295,7 +297,7 @@ class SimpleDictDocument(DictDocument):
                     assert cinst is not None, ninst
 
                 else:
-                    if ninst is None:
+                    if ninst is None or ninst is nattrs.default:
                         ninst = ncls.get_deserialization_instance(ctx)
                         cinst._safe_set(pkey, ninst, ncls, nattrs)
                         frequencies[cfreq_key][pkey] += 1
